@@ -125,6 +125,15 @@ class Prop(SeqProp):
                 # Model/TmpPoolCtx.lean, D21)
                 meta["late_enter"] = True
                 ops.insert(rng.randint(2, hi), "enter 1")
+            if not mp_case and created and rng.random() < 0.15:
+                # removals the operating system refuses for a while (Model/TmpPoolRefuse.lean): the file stays the pool's and goes
+                # once removing is allowed again
+                for _ in range(rng.randint(1, 2)):
+                    ops.insert(rng.randint(1, len(ops) - 1), f"protect {rng.randrange(created)}")
+                if rng.random() < 0.8:
+                    ops.insert(len(ops) - 1, "unprotect_all")
+                elif rng.random() < 0.5:
+                    ops.insert(rng.randint(1, len(ops) - 1), "unprotect_all")
             if not mp_case and rng.random() < 0.2:
                 # a single-process pool works without a context too: the object is used first and its context is entered
                 # later (`pool = TmpPool(d); pool.create(); with pool: …`), or a helper that got the pool wraps its own work
@@ -238,6 +247,16 @@ class Prop(SeqProp):
 
         late_enter = bool(case.meta.get("late_enter")) and pre is None
         entered = False
+        prot = set()
+        real_remove = os.remove
+
+        def guarded_remove(path, *a, **k):
+            if path in paths and paths.index(path) in prot and os.path.exists(path):
+                raise PermissionError(13, "Permission denied", path)
+            return real_remove(path, *a, **k)
+
+        if any(o.startswith("protect") for o in case.ops):
+            os.remove = guarded_remove
         try:
             for op_i, op in enumerate(case.ops):
                 w = op.split()
@@ -297,8 +316,13 @@ class Prop(SeqProp):
                     elif w[0] == "unlink":
                         k = int(w[1])
                         if k < len(paths) and os.path.exists(paths[k]):
-                            os.remove(paths[k])
+                            real_remove(paths[k])
                         r = "ok"
+                    elif w[0] == "protect":
+                        prot.add(int(w[1]))  # the k-th file the pool creates (it may not exist yet)
+                        r = "ok"
+                    elif w[0] == "unprotect_all":
+                        prot.clear(); r = "ok"
                     elif w[0] in ("exit", "raise"):
                         if mp_mode and not entered:
                             out.append("bad-op"); continue  # (a shrunk history) a multi_proc pool is left only after it was entered
@@ -324,6 +348,7 @@ class Prop(SeqProp):
                     r = f"err {err_name(e)}"
                 out.append(r + " " + dump())
         finally:
+            os.remove = real_remove
             for pid, (proc, conn) in children.items():
                 try:
                     conn.send(("quit",))
@@ -592,6 +617,7 @@ class Prop(SeqProp):
             if line.startswith("pools-not-independent "):
                 return f"before op {i} `{case.ops[i]}`: {line[22:][:500]}"
         listed, disk, created = [], set(), 0
+        prot = set()
         s = lambda xs: ",".join(map(str, xs))
         for i, (op, line) in enumerate(zip(case.ops, impl_out)):
             if line == "timeout":
@@ -600,15 +626,29 @@ class Prop(SeqProp):
             exp = "ok"
             if w[0] == "new":
                 listed, disk, created = [], set(), 0
+                prot = set()
             elif w[0] == "create":
                 listed.append(created); disk.add(created); exp = f"ret {created}"; created += 1
+            elif w[0] == "protect":
+                prot.add(int(w[1]))
+            elif w[0] == "unprotect_all":
+                prot.clear()
             elif w[0] == "remove":
                 k = int(w[2])
-                disk.discard(k)
-                if k in listed:
-                    listed.remove(k)
+                if k in prot and k in disk:
+                    exp = "err PermissionError"  # refused: the file is still there and still the pool's
                 else:
-                    exp = "err ValueError"
+                    disk.discard(k)
+                    if k in listed:
+                        listed.remove(k)
+                    else:
+                        exp = "err ValueError"
+            elif w[0] in ("flush", "exit", "raise") and any(k in prot and k in disk for k in listed):
+                for k in listed:
+                    if k in prot and k in disk:
+                        break
+                    disk.discard(k)
+                exp = "err PermissionError"
             elif w[0] == "flush":
                 disk -= set(listed); listed = []
             elif w[0] == "fork":
